@@ -119,6 +119,14 @@ KINDS = [
                                               'X-Requested-With': 'XMLHttpRequest', 'X-Script-Name': '/tenant-alice'},
                                   'REMOTE_ADDR': '192.0.2.1', 'qs': 'view=private'}),
     ('who-b', 'GET', '/whoami', {}),
+    # a prepared answer object (built once, returned for every logout) that carries a cookie of its own; the handler also puts a cookie
+    # on the application's response before returning it
+    ('logout-a', 'GET', '/logout', {'qs': 'user=alice'}),
+    ('logout-b', 'GET', '/logout', {'qs': 'user=bob'}),
+    ('bye', 'GET', '/bye', {}),
+    # request methods outside the usual seven, another one at every repetition: served by an ANY route / refused with 405
+    ('verbvar', 'MV{i}', '/anyverb', {}),
+    ('verbvar405', 'QX{i}', '/ok', {}),
 ]
 NK = len(KINDS)
 
@@ -227,6 +235,15 @@ def fresh_app():
         return repr((seen, getattr(rq, 'user', None), rq.auth, rq.remote_route, rq.remote_addr, rq.is_xhr, rq.script_name, rq.url,
                      rq.fullpath, sorted(k for k in rq.keys() if k.startswith('HTTP_')), rq.content_type, rq.content_length))
     app.route('/whoami', 'GET', whoami)
+    prepared = om.HTTPResponse('signed out', 200, X_Flow='logout')
+    prepared.set_cookie('sid', 'deleted')
+
+    def logout():
+        app.response.set_cookie('flash', 'goodbye-' + app.request.query.get('user', '?'))
+        return prepared
+    app.route('/logout', 'GET', logout)
+    app.route('/bye', 'GET', lambda: prepared)
+    app.route('/anyverb', 'ANY', lambda: 'any verb: ' + app.request.method)
     dbg = om.Ombott({'debug': True})
 
     def boom():
@@ -269,6 +286,7 @@ def serve(app, k, refs=None, i=0):
     name, method, path, kw = KINDS[k]
     kw = dict(kw)
     path = path.replace('{i}', str(i))
+    method = method.replace('{i}', str(i))
     if 'qs' in kw:
         kw['qs'] = kw['qs'].replace('{i}', str(i))
     if 'ctype' in kw:
